@@ -3,6 +3,7 @@ mod arr;
 mod c01;
 mod c02;
 mod c03;
+mod c05;
 mod c06;
 mod c15;
 mod c16;
@@ -33,7 +34,7 @@ fn exec_line(ctx: &mut Ctx, line: &str) -> String {
     let prop = toks.next().unwrap_or("");
     let second = toks.next().unwrap_or("");
     match prop {
-        "c01" | "c02" | "c04" | "c06" | "c15" | "c16" | "c17" | "c20" => {
+        "c01" | "c02" | "c04" | "c05" | "c06" | "c15" | "c16" | "c17" | "c20" => {
             let (v, m) = parse_line(line);
             if second == "cfg" {
                 ctx.arr = None;
@@ -104,6 +105,7 @@ fn main() {
                 "c02" => c02::generate(&a.tier, a.seed),
                 "c03" => c03::generate(&a.tier, a.seed),
                 "c04" => c01::generate_c04(&a.tier, a.seed),
+                "c05" => c05::generate(&a.tier, a.seed),
                 "c06" => c06::generate(&a.tier, a.seed),
                 "c15" => c15::generate(&a.tier, a.seed),
                 "c16" => c16::generate(&a.tier, a.seed),
